@@ -10,7 +10,12 @@ import (
 
 // NominalDir is the directory the harness test files pretend to live in (the
 // overlay keeps the nominal path of added files).
-const NominalDir = "/repo/snaps"
+var NominalDir = func() string {
+	if v := os.Getenv("VERIF_NOMINAL"); v != "" {
+		return v
+	}
+	return "/repo/snaps"
+}()
 
 // Call-site files. A Match* call made through call site i is seen by the
 // library as coming from test file CallSiteFile(i).
@@ -184,6 +189,9 @@ type Lifetime struct {
 	Sched   *SchedSpec        `json:"sched,omitempty"`
 	Faults  []Fault           `json:"faults,omitempty"`
 	Note    string            `json:"note,omitempty"`
+	// FreshCfg: build a new Config from the same options for every call
+	// (differential oracle of property C12).
+	FreshCfg bool `json:"freshcfg,omitempty"`
 }
 
 // ---- what a lifetime reports back ----
@@ -212,6 +220,7 @@ type CallEvent struct {
 	Exec    int      `json:"exec"` // n-th execution of this call in this lifetime (0-based)
 	Task    int      `json:"task"`
 	Test    string   `json:"test"`
+	Node    int      `json:"node"` // id of the node execution (test execution) that made the call
 	Signals []Signal `json:"signals,omitempty"`
 	Begin   int64    `json:"begin"` // op seq at begin
 	End     int64    `json:"end"`
